@@ -86,10 +86,11 @@ def Cache.put (c : Cache) (cap k : Nat) (v : CSess) : Cache :=
 
 -- one connection -------------------------------------------------------------------------------------------
 
-/-- ClientHello suites: `makeClientHelloGM` / `makeClientHello` keep the configured ids the mode implements -/
+/-- ClientHello suites: `makeClientHelloGM` / `makeClientHello` keep the configured ids the mode implements; the
+    GMSSL client (repaired) does not offer the ECDHE-SM2 suites, whose key exchange it cannot complete -/
 def helloSuites (m : Mode) (cs : Option (List Suite)) : List Suite :=
   match m with
-  | .gm => (cs.getD gmAll).filter Model.Suites.isGM
+  | .gm => (cs.getD gmAll).filter Model.Suites.gmClientKx
   | .tls => (cs.getD tlsDefaults).filter Model.Suites.isTLS
 
 /-- the list a full handshake selects from: `getCipherSuites(config)` (GMSSL) / `config.cipherSuites()` (TLS) -/
